@@ -256,17 +256,15 @@ Definition key_field (x : option (fattr * sch)) : Prop :=
   | _ => False
   end.
 
-Section WF.
-  Variable T : tyenv.
 
   (* per-field conditions: [pfl] = the fields declared before this one *)
-  Fixpoint sch_ok (s : sch) : Prop :=
+  Fixpoint sch_ok (T : tyenv) (s : sch) : Prop :=
     match s with
     | SPrim _ => True
-    | SStruct _ fl => fl_ok FNil fl
-    | SDyn _ _ cs => cases_ok cs
+    | SStruct _ fl => fl_ok T FNil fl
+    | SDyn _ _ cs => cases_ok T cs
     end
-  with fl_ok (pfl fl : flist) : Prop :=
+  with fl_ok (T : tyenv) (pfl fl : flist) : Prop :=
     match fl with
     | FNil => True
     | FCons a s r =>
@@ -276,33 +274,33 @@ Section WF.
          | SDyn _ ki _ => fa_slice a = false /\ key_field (fl_nth pfl ki)
          | _ => True
          end) /\
-        sch_ok s /\ fl_ok (fl_app pfl (FCons a s FNil)) r
+        sch_ok T s /\ fl_ok T (fl_app pfl (FCons a s FNil)) r
     end
-  with cases_ok (cs : dcases) : Prop :=
+  with cases_ok (T : tyenv) (cs : dcases) : Prop :=
     match cs with
     | DNil => True
     | DCase _ s r =>
         match s with
         | SPrim _ => True
-        | SStruct ty fl => (exists tag, T ty = Some (tag, fl)) /\ fl_ok FNil fl
+        | SStruct ty fl => (exists tag, T ty = Some (tag, fl)) /\ fl_ok T FNil fl
         | SDyn _ _ _ => False
-        end /\ cases_ok r
+        end /\ cases_ok T r
     end.
 
-  Definition env_ok : Prop := forall ty tag fl, T ty = Some (tag, fl) -> fl_ok FNil fl.
+  Definition env_ok (T : tyenv) : Prop := forall ty tag fl, T ty = Some (tag, fl) -> fl_ok T FNil fl.
 
   Definition key_of (s : sch) (prev : vlist) : val :=
     match s with SDyn _ ki _ => vl_nth ki prev | _ => VNil end.
 
   (* well-formed KMIP message values: typed per schema, dynamic payloads agreeing with the dispatch
      table applied to the discriminating sibling, required sequences non-empty, sizes below 2^32 *)
-  Fixpoint wf (s : sch) (key : val) (v : val) {struct v} : Prop :=
+  Fixpoint wf (T : tyenv) (s : sch) (key : val) (v : val) {struct v} : Prop :=
     match s with
     | SPrim k => wf_prim k v
     | SStruct ty fl =>
         match v with
         | VStruct ty' vs =>
-            ty' = ty /\ wf_fields fl VNone vs /\
+            ty' = ty /\ wf_fields T fl VNone vs /\
             exists body, enc_fields T fl vs = Some body /\ blen body < 2 ^ 32
         | _ => False
         end
@@ -311,7 +309,7 @@ Section WF.
         | VNil => True                     (* an absent optional payload *)
         | VStruct ty vs | VPtr (VStruct ty vs) =>
             exists tag fl, T ty = Some (tag, fl) /\ lookup_case cs key = Some (SStruct ty fl) /\
-                           wf_fields fl VNone vs /\
+                           wf_fields T fl VNone vs /\
                            exists body, enc_fields T fl vs = Some body /\ blen body < 2 ^ 32
         | VInt _ => lookup_case cs key = Some (SPrim KInt) /\ wf_prim KInt v
         | VLong _ => lookup_case cs key = Some (SPrim KLong) /\ wf_prim KLong v
@@ -324,31 +322,31 @@ Section WF.
         | _ => False
         end
     end
-  with wf_fields (fl : flist) (prev : vlist) (vs : vlist) {struct vs} : Prop :=
+  with wf_fields (T : tyenv) (fl : flist) (prev : vlist) (vs : vlist) {struct vs} : Prop :=
     match fl, vs with
     | FNil, VNone => True
     | FCons a s r, VCons v vr =>
         (if on_wire a then
            if fa_slice a then
              match v with
-             | VList es => wf_elems s es /\ (fa_req a = true -> es <> VNone)
+             | VList es => wf_elems T s es /\ (fa_req a = true -> es <> VNone)
              | _ => False
              end
-           else wf s (key_of s prev) v
+           else wf T s (key_of s prev) v
          else True) /\
-        wf_fields r (vl_snoc prev v) vr
+        wf_fields T r (vl_snoc prev v) vr
     | _, _ => False
     end
-  with wf_elems (s : sch) (es : vlist) {struct es} : Prop :=
+  with wf_elems (T : tyenv) (s : sch) (es : vlist) {struct es} : Prop :=
     match es with
     | VNone => True
-    | VCons e er => wf s VNil e /\ wf_elems s er
+    | VCons e er => wf T s VNil e /\ wf_elems T s er
     end.
 
   (* Decode(Encode v): what the top-level hypothesis of C01 says about a message value *)
-  Definition wf_top (ty : string) (v : val) : Prop :=
-    exists tag fl, T ty = Some (tag, fl) /\ wf (SStruct ty fl) VNil v.
-End WF.
+  Definition wf_top (T : tyenv) (ty : string) (v : val) : Prop :=
+    exists tag fl, T ty = Some (tag, fl) /\ wf T (SStruct ty fl) VNil v.
+
 
 (* ------------------------------------------------------------------ *)
 (* shapes of encodings                                                 *)
@@ -430,6 +428,9 @@ Proof. induction cs as [|k s r IH]; cbn [dec_cases lookup_case]; [reflexivity|].
 (* ------------------------------------------------------------------ *)
 Lemma vl_set_app_len p x y q : vl_set (vl_length p) x (vl_app p (VCons y q)) = vl_app p (VCons x q).
 Proof. induction p as [|z r IH]; cbn; [reflexivity|]. rewrite IH. reflexivity. Qed.
+
+Lemma vl_set_app_len_eq i p x y q : i = vl_length p -> vl_set i x (vl_app p (VCons y q)) = vl_app p (VCons x q).
+Proof. intros ->. apply vl_set_app_len. Qed.
 
 Lemma vl_nth_app_lt p q i : (i < vl_length p)%nat -> vl_nth i (vl_app p q) = vl_nth i p.
 Proof. revert i; induction p as [|z r IH]; intros i H; cbn in *; [lia|]. destruct i; [reflexivity|]. apply IH. lia. Qed.
@@ -576,13 +577,18 @@ Proof.
   rewrite wrap_blen. rewrite N.add_0_l. reflexivity.
 Qed.
 
-Lemma enc_elems_len T s tag : forall es b, enc_elems T s tag es = Some b -> (vl_length es <= length b)%nat.
+Lemma enc_elems_len T s tag : forall es b, enc_elems T s tag es = Some b -> (8 * vl_length es <= length b)%nat.
 Proof.
   induction es as [|e er IH]; intros b H; cbn [enc_elems] in H; [cbn; lia|].
   destruct (enc_value T s tag e) as [b1|] eqn:E1; cbn [obind] in H; [|discriminate].
   destruct (enc_elems T s tag er) as [b2|] eqn:E2; cbn [obind] in H; [|discriminate]. injection H as <-.
   destruct (enc_value_starts _ _ _ _ _ E1) as [b' [-> Hb']]. specialize (IH _ eq_refl).
   cbn [vl_length]. rewrite !app_length, be_length. unfold blen in Hb'. lia.
+Qed.
+
+Lemma at_item_rest_len t b tl s : at_item t b tl s -> (length b + length tl <= length (rest s) + 3)%nat.
+Proof.
+  intros [->|[b' [-> ->]]]; cbn [rest]; rewrite !app_length; [lia|]. rewrite be_length. lia.
 Qed.
 
 Section RT.
@@ -635,4 +641,327 @@ Section RT.
     destruct Hf as [st' Hst']; [left; reflexivity|lia|assumption|].
     cbn [normalize_fields vl_app fl_len] in Hst'. eauto.
   Qed.
+
+  (* dynamic positions: what the dispatch finds is what the encoder wrote *)
+  Lemma dyn_prim_rt h ki cs key k v a tl st cur b :
+    lookup_case cs key = Some (SPrim k) -> wf_prim k v -> enc_prim (fa_tag a) k v = Some b ->
+    tag_ok (fa_tag a) -> at_item (fa_tag a) b tl st -> vl_nth ki cur = key ->
+    dec_value (SDyn h ki cs) a st cur = Ok (v, blen b, {| rest := tl; last := 0 |}).
+  Proof.
+    intros Hl Hwf He [Hz [Hlt _]] Hat Hk. cbn [dec_value]. rewrite dec_cases_lookup, Hk, Hl. cbn [dec_value].
+    eapply dec_prim_enc; eauto.
+  Qed.
+
+  Lemma fl_ok_tags : forall fl pfl t, fl_ok T pfl fl -> In t (all_tags fl) -> t <> ANY_TAG -> tag_ok t.
+  Proof.
+    induction fl as [|a s r IH]; intros pfl t Hok Hin Hne; cbn [all_tags] in Hin; [contradiction|].
+    cbn [fl_ok] in Hok. destruct Hok as [Hc [_ [_ Hr]]]. destruct Hin as [<-|Hin].
+    - destruct Hc as [[E _]|[Hok _]]; [contradiction|exact Hok].
+    - eapply IH; eauto.
+  Qed.
+
+  (* an optional field that is not on the wire at this point is passed over, leaving the position in the stream *)
+  Lemma absent_step a s r i explen st actual nsum cur body :
+    at_stream body st -> fa_req a = false ->
+    (body = [] \/ exists t b', body = be 3 t ++ b' /\ t <> fa_tag a /\ fa_tag a <> ANY_TAG /\ t <> 0 /\ t < 2 ^ 24) ->
+    exists st', at_stream body st' /\
+      dec_fields (FCons a s r) i explen st actual nsum cur = dec_fields r (S i) explen st' actual nsum cur.
+  Proof.
+    intros Hat Hreq [->|[t [b' [-> [Hne [Hany [Hz Hlt]]]]]]].
+    - destruct (peek_stream_nil _ Hat) as [Hp ->]. exists {| rest := []; last := 0 |}. split; [left; reflexivity|].
+      cbn [dec_fields]. rewrite Hp, Hreq. reflexivity.
+    - destruct (peek_stream_cons _ _ _ Hz Hlt Hat) as [st' [Hp [_ Hst']]]. exists st'. split; [exact Hst'|].
+      cbn [dec_fields]. rewrite Hp, Hreq. cbn [negb andb].
+      destruct (N.eqb_spec t (fa_tag a)); [contradiction|]. destruct (N.eqb_spec (fa_tag a) ANY_TAG); [contradiction|].
+      reflexivity.
+  Qed.
+
+  Lemma vl_app_snoc_nil acc x : vl_app acc (VCons x VNone) = vl_snoc acc x.
+  Proof. induction acc as [|y r IH]; cbn; [reflexivity|]. rewrite IH. reflexivity. Qed.
+
+  Lemma mod_small_sum a b e : a + b <= e -> e < 2 ^ 32 -> (a + b) mod 2 ^ 32 = a + b.
+  Proof. intros. apply N.mod_small. lia. Qed.
+
+  Lemma rt_mut :
+    (forall v, value_rt v /\ (match v with VList es => elems_rt es | _ => True end)) /\
+    (forall vs, fields_rt vs /\ elems_rt vs).
+  Proof.
+    apply val_mutind.
+    - (* VInt *) intros z. split; [|exact I]. intros s key a tl st cur b Hs Hwf He Htag Hat Hk.
+      destruct s as [k|ty fl|h ki cs].
+      + rewrite enc_value_prim in He. rewrite normalize_prim. cbn [dec_value]. destruct Htag as [Hz [Hlt _]]. eapply dec_prim_enc; eauto.
+      + cbn [enc_value] in He. discriminate.
+      + cbn [wf] in Hwf. destruct Hwf as [Hl Hw]. cbn [enc_value enc_dyn_prim] in He. eapply dyn_prim_rt; eauto.
+    - intros z. split; [|exact I]. intros s key a tl st cur b Hs Hwf He Htag Hat Hk.
+      destruct s as [k|ty fl|h ki cs].
+      + rewrite enc_value_prim in He. rewrite normalize_prim. cbn [dec_value]. destruct Htag as [Hz [Hlt _]]. eapply dec_prim_enc; eauto.
+      + cbn [enc_value] in He. discriminate.
+      + cbn [wf] in Hwf. destruct Hwf as [Hl Hw]. cbn [enc_value enc_dyn_prim] in He. eapply dyn_prim_rt; eauto.
+    - intros z. split; [|exact I]. intros s key a tl st cur b Hs Hwf He Htag Hat Hk.
+      destruct s as [k|ty fl|h ki cs].
+      + rewrite enc_value_prim in He. rewrite normalize_prim. cbn [dec_value]. destruct Htag as [Hz [Hlt _]]. eapply dec_prim_enc; eauto.
+      + cbn [enc_value] in He. discriminate.
+      + cbn [wf] in Hwf. destruct Hwf as [Hl Hw]. cbn [enc_value enc_dyn_prim] in He. eapply dyn_prim_rt; eauto.
+    - intros z. split; [|exact I]. intros s key a tl st cur b Hs Hwf He Htag Hat Hk.
+      destruct s as [k|ty fl|h ki cs].
+      + rewrite enc_value_prim in He. rewrite normalize_prim. cbn [dec_value]. destruct Htag as [Hz [Hlt _]]. eapply dec_prim_enc; eauto.
+      + cbn [enc_value] in He. discriminate.
+      + cbn [wf] in Hwf. destruct Hwf as [Hl Hw]. cbn [enc_value enc_dyn_prim] in He. eapply dyn_prim_rt; eauto.
+    - intros z. split; [|exact I]. intros s key a tl st cur b Hs Hwf He Htag Hat Hk.
+      destruct s as [k|ty fl|h ki cs].
+      + rewrite enc_value_prim in He. rewrite normalize_prim. cbn [dec_value]. destruct Htag as [Hz [Hlt _]]. eapply dec_prim_enc; eauto.
+      + cbn [enc_value] in He. discriminate.
+      + cbn [wf] in Hwf. destruct Hwf as [Hl Hw]. cbn [enc_value enc_dyn_prim] in He. eapply dyn_prim_rt; eauto.
+    - intros z. split; [|exact I]. intros s key a tl st cur b Hs Hwf He Htag Hat Hk.
+      destruct s as [k|ty fl|h ki cs].
+      + rewrite enc_value_prim in He. rewrite normalize_prim. cbn [dec_value]. destruct Htag as [Hz [Hlt _]]. eapply dec_prim_enc; eauto.
+      + cbn [enc_value] in He. discriminate.
+      + cbn [wf] in Hwf. destruct Hwf as [Hl Hw]. cbn [enc_value enc_dyn_prim] in He. eapply dyn_prim_rt; eauto.
+    - intros z. split; [|exact I]. intros s key a tl st cur b Hs Hwf He Htag Hat Hk.
+      destruct s as [k|ty fl|h ki cs].
+      + rewrite enc_value_prim in He. rewrite normalize_prim. cbn [dec_value]. destruct Htag as [Hz [Hlt _]]. eapply dec_prim_enc; eauto.
+      + cbn [enc_value] in He. discriminate.
+      + cbn [wf] in Hwf. destruct Hwf as [Hl Hw]. cbn [enc_value enc_dyn_prim] in He. eapply dyn_prim_rt; eauto.
+    - intros z. split; [|exact I]. intros s key a tl st cur b Hs Hwf He Htag Hat Hk.
+      destruct s as [k|ty fl|h ki cs].
+      + rewrite enc_value_prim in He. rewrite normalize_prim. cbn [dec_value]. destruct Htag as [Hz [Hlt _]]. eapply dec_prim_enc; eauto.
+      + cbn [enc_value] in He. discriminate.
+      + cbn [wf] in Hwf. destruct Hwf as [Hl Hw]. cbn [enc_value enc_dyn_prim] in He. eapply dyn_prim_rt; eauto.
+    - (* VStruct *) intros ty fs [Hf _]. split; [|exact I]. intros s key a tl st cur b Hs Hwf He Htag Hat Hk.
+      destruct s as [k|ty' fl|h ki cs].
+      + rewrite enc_value_prim in He. destruct k; discriminate.
+      + cbn [wf] in Hwf. destruct Hwf as [-> [Hwf [body [Eb Hlen]]]]. cbn [enc_value] in He.
+        rewrite Eb in He. cbn [obind] in He. injection He as <-.
+        cbn [normalize]. cbn [sch_ok] in Hs.
+        exact (struct_value_rt ty' fl fs a tl st cur Hf Hs Hwf (ex_intro _ body (conj Eb Hlen)) Htag body Eb Hat).
+      + cbn [wf] in Hwf. destruct Hwf as [tag0 [fl [HT [Hl [Hwf [body [Eb Hlen]]]]]]]. cbn [enc_value] in He. rewrite HT in He. cbn [obind snd] in He.
+        rewrite Eb in He. cbn [obind] in He. injection He as <-.
+        cbn [normalize]. rewrite HT. cbn [snd]. cbn [dec_value]. rewrite dec_cases_lookup, Hk, Hl.
+        exact (struct_value_rt ty fl fs a tl st VNone Hf (Henv _ _ _ HT) Hwf (ex_intro _ body (conj Eb Hlen)) Htag body Eb Hat).
+    - (* VList *) intros vs [_ He]. split; [|exact He]. intros s key a tl st cur b Hs Hwf Hen. 
+      destruct s as [k| |]; [rewrite enc_value_prim in Hen; destruct k; discriminate|cbn [enc_value] in Hen; discriminate|cbn [enc_value] in Hen; discriminate].
+    - (* VNil *) split; [|exact I]. intros s key a tl st cur b Hs Hwf Hen.
+      destruct s as [k| |]; [rewrite enc_value_prim in Hen; destruct k; discriminate|cbn [enc_value] in Hen; discriminate|cbn [enc_value] in Hen; discriminate].
+    - (* VPtr *) intros v [IH _]. split; [|exact I]. intros s key a tl st cur b Hs Hwf He Htag Hat Hk.
+      destruct s as [k|ty' fl|h ki cs].
+      + rewrite enc_value_prim in He. destruct k; discriminate.
+      + cbn [enc_value] in He. discriminate.
+      + destruct v; cbn [wf] in Hwf; try contradiction.
+        (* pointer to a structure: encoded and normalised like the structure itself *)
+        specialize (IH (SDyn h ki cs) key a tl st cur b Hs). cbn [wf enc_value normalize] in IH.
+        cbn [enc_value] in He. cbn [normalize]. destruct Hwf as [tag0 [fl [HT Hrest]]].
+        rewrite HT in *. apply IH; eauto.
+    - (* VBad *) intros w. split; [|exact I]. intros s key a tl st cur b Hs Hwf Hen.
+      destruct s as [k| |]; [rewrite enc_value_prim in Hen; destruct k; discriminate|cbn [enc_value] in Hen; discriminate|cbn [enc_value] in Hen; discriminate].
+    - (* VNone *) split.
+      + intros fl pfl prev body st explen actual nsum Hok Hwf He Hl Hat Hsum Hlt.
+        destruct fl; cbn [wf_fields] in Hwf; [|contradiction]. cbn [enc_fields] in He. injection He as <-.
+        exists st. cbn [dec_fields zeros_of normalize_fields]. cbn [blen length N.of_nat] in *.
+        replace explen with actual by (unfold blen in Hsum; cbn in Hsum; lia).
+        rewrite N.add_0_r. reflexivity.
+      + intros s a rest_body b st explen actual nsum acc cur fuel Hne. contradiction.
+    - (* VCons *) intros v [IHv IHl] vr [IHf IHe]. split.
+      + (* fields *)
+        intros fl pfl prev body st explen actual nsum Hok Hwf He Hl Hat Hsum Hlt.
+        destruct fl as [|a s r]; [cbn [wf_fields] in Hwf; contradiction|].
+        cbn [fl_ok] in Hok. destruct Hok as [Hc [Hdyn [Hs Hr]]].
+        cbn [wf_fields] in Hwf. destruct Hwf as [Hwv Hwr].
+        set (P := normalize_fields T pfl prev).
+        assert (HPlen: vl_length P = fl_len pfl) by (unfold P; rewrite normalize_fields_length; exact Hl).
+        rewrite normalize_fields_cons, zeros_of_cons.
+        set (z0 := if fa_slice a then VList VNone else zero_of s).
+        (* what remains to be done once this field is dealt with *)
+        assert (Hcont: forall body_r st1 actual1 nsum1,
+             enc_fields T r vr = Some body_r -> at_stream body_r st1 -> actual1 + blen body_r = explen ->
+             exists st', dec_fields r (S (fl_len pfl)) explen st1 actual1 nsum1
+                           (vl_app P (VCons (norm_field T a s v) (zeros_of r)))
+               = Ok (vl_app P (VCons (norm_field T a s v) (normalize_fields T r vr)), explen, nsum1 + blen body_r, st')).
+        { intros body_r st1 actual1 nsum1 Her Hst1 Hs1.
+          assert (Hl': vl_length (vl_snoc prev v) = fl_len (fl_app pfl (FCons a s FNil)))
+            by (rewrite vl_length_snoc, fl_len_app; cbn [fl_len]; lia).
+          destruct (IHf r (fl_app pfl (FCons a s FNil)) (vl_snoc prev v) body_r st1 explen actual1 nsum1 Hr Hwr Her Hl' Hst1 Hs1 Hlt)
+            as [st' Hst'].
+          exists st'. rewrite normalize_fields_snoc in Hst' by assumption. fold P in Hst'.
+          rewrite !vl_app_snoc in Hst'. rewrite fl_len_app in Hst'. cbn [fl_len] in Hst'. rewrite Nat.add_1_r in Hst'. exact Hst'. }
+        (* the first item of what follows carries a later field's tag *)
+        assert (Hfirst: forall body_r, enc_fields T r vr = Some body_r ->
+                  body_r = [] \/ exists t b', body_r = be 3 t ++ b' /\ In t (all_tags r) /\ t <> 0 /\ t < 2 ^ 24).
+        { intros body_r Her. destruct (enc_fields_first T _ _ _ Her) as [->|[t [b' [-> [Hin Hna]]]]]; [left; reflexivity|].
+          right. exists t, b'. destruct (fl_ok_tags _ _ _ Hr Hin Hna) as [Hz [Hl2 _]]. auto. }
+        cbn [enc_fields] in He. unfold on_wire in Hwv. unfold norm_field in *.
+        destruct ((fa_tag a =? ANY_TAG) || fa_skip a) eqn:Esk; cbn [negb] in Hwv.
+        { (* never on the wire *)
+          fold z0. fold z0 in Hcont.
+          assert (Hreq: fa_req a = false).
+          { destruct Hc as [[_ [_ [Hq _]]]|[[_ [_ Hna]] [_ Hq]]]; [exact Hq|]. apply Hq.
+            apply orb_true_iff in Esk. destruct Esk as [E|E]; [apply N.eqb_eq in E; contradiction|exact E]. }
+          assert (Hab: body = [] \/ exists t b', body = be 3 t ++ b' /\ t <> fa_tag a /\ fa_tag a <> ANY_TAG /\ t <> 0 /\ t < 2 ^ 24).
+          { destruct Hc as [[_ [_ [_ ->]]]|[[_ [_ Hna]] [Hnin _]]].
+            - destruct vr; cbn [wf_fields] in Hwr; [|contradiction]. cbn [enc_fields] in He. injection He as <-. left; reflexivity.
+            - destruct (Hfirst _ He) as [->|[t [b' [-> [Hin [Hz Hl2]]]]]]; [left; reflexivity|]. right. exists t, b'.
+              repeat split; auto. intros ->. contradiction. }
+          destruct (absent_step a s r (fl_len pfl) explen st actual nsum (vl_app P (VCons z0 (zeros_of r))) body Hat Hreq Hab)
+            as [st1 [Hst1 Hstep]].
+          rewrite Hstep. apply Hcont; auto. }
+        (* on the wire: a proper tag that no later field uses *)
+        destruct Hc as [[Ea _]|[[Htz [Htlt Htany]] [Hnin Hskq]]].
+        { exfalso. apply orb_false_iff in Esk. destruct Esk as [E _]. apply N.eqb_neq in E. contradiction. }
+        assert (Hskip: fa_skip a = false) by (apply orb_false_iff in Esk; tauto).
+        destruct (fa_slice a) eqn:Esl.
+        { (* a sequence *)
+          destruct v; try contradiction. destruct Hwv as [Hwe Hreqne].
+          destruct (enc_elems T s (fa_tag a) vs) as [bes|] eqn:Ees; cbn [obind] in He; [|discriminate].
+          destruct (enc_fields T r vr) as [body_r|] eqn:Er; cbn [obind] in He; [|discriminate]. injection He as <-.
+          destruct (enc_elems_starts _ _ _ _ _ Ees) as [[-> ->]|[Hne [b' Hb']]].
+          - (* empty: nothing on the wire *)
+            cbn [app] in *. cbn [normalize_elems]. fold z0. 
+            assert (Hreq: fa_req a = false) by (destruct (fa_req a); [exfalso; apply Hreqne; reflexivity|reflexivity]).
+            assert (Hab: body_r = [] \/ exists t b', body_r = be 3 t ++ b' /\ t <> fa_tag a /\ fa_tag a <> ANY_TAG /\ t <> 0 /\ t < 2 ^ 24).
+            { destruct (Hfirst _ eq_refl) as [->|[t [b'' [-> [Hin [Hz Hl2]]]]]]; [left; reflexivity|]. right. exists t, b''.
+              repeat split; auto. intros ->. contradiction. }
+            destruct (absent_step a s r (fl_len pfl) explen st actual nsum (vl_app P (VCons z0 (zeros_of r))) body_r Hat Hreq Hab)
+              as [st1 [Hst1 Hstep]].
+            rewrite Hstep. unfold z0 in *. apply Hcont; auto.
+          - (* at least one element *)
+            subst bes. rewrite <- app_assoc in Hat.
+            destruct (peek_stream_cons (fa_tag a) (b' ++ body_r) st Htz Htlt Hat) as [dd1 [Hp [Hit1 _]]].
+            cbn [dec_fields]. rewrite Hp. rewrite N.eqb_refl. cbn [negb andb]. rewrite andb_false_r. cbn [andb].
+            rewrite Esl. rewrite Hskip.
+            assert (Hnd: not_dyn s) by (destruct s; cbn; auto; destruct Hdyn as [E _]; congruence).
+            assert (Hrb: body_r = [] \/ exists t r0, body_r = be 3 t ++ r0 /\ t <> fa_tag a /\ t <> 0 /\ t < 2 ^ 24).
+            { destruct (Hfirst _ eq_refl) as [->|[t [b'' [-> [Hin [Hz Hl2]]]]]]; [left; reflexivity|]. right. exists t, b''.
+              repeat split; auto. intros ->. contradiction. }
+            rewrite !blen_app in Hsum.
+            assert (Hit2: at_item (fa_tag a) ((be 3 (fa_tag a) ++ b') ++ body_r) [] dd1) by (rewrite <- app_assoc; exact Hit1).
+            assert (Hfuel: (vl_length vs <= S (length (rest dd1)))%nat).
+            { pose proof (enc_elems_len _ _ _ _ _ Ees) as Hl8. pose proof (at_item_rest_len _ _ _ _ Hit2) as Hl3.
+              rewrite !app_length in *. cbn [length] in Hl3. lia. }
+            assert (Hsum2: actual + blen (be 3 (fa_tag a) ++ b') + blen body_r = explen) by (rewrite blen_app; lia).
+            destruct (IHl s a body_r (be 3 (fa_tag a) ++ b') dd1 explen actual nsum VNone
+                          (vl_app P (VCons z0 (zeros_of r))) (S (length (rest dd1))) Hne Hs Hnd Hwe Ees
+                          (conj Htz (conj Htlt Htany)) Hit2 Hrb Hsum2 Hlt Hfuel) as [dd2 [Hloop Hdd2]].
+            cbv beta iota. rewrite Hloop. cbn [bind vl_app].
+            rewrite (vl_set_app_len_eq _ _ _ _ _ (eq_sym HPlen)).
+            rewrite (blen_app (be 3 (fa_tag a) ++ b') body_r), N.add_assoc.
+            apply (Hcont body_r dd2 _ _ eq_refl Hdd2). exact Hsum2. }
+        (* a single value *)
+        destruct (negb (fa_req a) && is_zero s v) eqn:Ez.
+        { (* optional and zero: omitted *)
+          apply andb_true_iff in Ez. destruct Ez as [Hreq Hzero]. apply negb_true_iff in Hreq.
+          pose proof (proj1 (is_zero_normalize T) s _ v Hwv Hzero) as Hn. rewrite Hn in *. unfold z0 in *.
+          assert (Hab: body = [] \/ exists t b', body = be 3 t ++ b' /\ t <> fa_tag a /\ fa_tag a <> ANY_TAG /\ t <> 0 /\ t < 2 ^ 24).
+          { destruct (Hfirst _ He) as [->|[t [b'' [-> [Hin [Hz Hl2]]]]]]; [left; reflexivity|]. right. exists t, b''.
+            repeat split; auto. intros ->. contradiction. }
+          destruct (absent_step a s r (fl_len pfl) explen st actual nsum (vl_app P (VCons (zero_of s) (zeros_of r))) body Hat Hreq Hab)
+            as [st1 [Hst1 Hstep]].
+          rewrite Hstep. apply Hcont; auto. }
+        destruct (enc_value T s (fa_tag a) v) as [bv|] eqn:Ev; cbn [obind] in He; [|discriminate].
+        destruct (enc_fields T r vr) as [body_r|] eqn:Er; cbn [obind] in He; [|discriminate]. injection He as <-.
+        destruct (enc_value_starts _ _ _ _ _ Ev) as [b' [Hbv _]].
+        assert (Hat2: at_stream (be 3 (fa_tag a) ++ b' ++ body_r) st) by (subst bv; rewrite <- app_assoc in Hat; exact Hat).
+        destruct (peek_stream_cons (fa_tag a) (b' ++ body_r) st Htz Htlt Hat2) as [dd1 [Hp [Hit1 _]]].
+        assert (Hit2: at_item (fa_tag a) bv body_r dd1) by (subst bv; apply at_item_split; exact Hit1).
+        cbn [dec_fields]. rewrite Hp. rewrite N.eqb_refl. cbn [negb andb]. rewrite andb_false_r. cbn [andb].
+        rewrite Esl, Hskip. cbv beta iota.
+        assert (Hkey: match s with SDyn _ ki _ => vl_nth ki (vl_app P (VCons z0 (zeros_of r))) = key_of s prev | _ => True end).
+        { destruct s as [| |h ki cs]; try exact I. destruct Hdyn as [_ Hkf]. cbn [key_of]. unfold P. apply key_nth; assumption. }
+        rewrite (IHv s (key_of s prev) a body_r dd1 (vl_app P (VCons z0 (zeros_of r))) bv Hs Hwv Ev (conj Htz (conj Htlt Htany)) Hit2 Hkey).
+        cbn [wrapped bind].
+        rewrite blen_app in Hsum.
+        rewrite (mod_small_sum actual (blen bv) explen) by lia.
+        rewrite (vl_set_app_len_eq _ _ _ _ _ (eq_sym HPlen)).
+        rewrite (blen_app bv body_r), N.add_assoc.
+        apply (Hcont body_r _ _ _ eq_refl (or_introl eq_refl)). lia.
+      + (* elements of a slice *)
+        intros s a rest_body b st explen actual nsum acc cur fuel _ Hs Hnd Hwf He Htag Hat Hrb Hsum Hlt Hfuel.
+        cbn [wf_elems] in Hwf. destruct Hwf as [Hwe Hwr].
+        cbn [enc_elems] in He. destruct (enc_value T s (fa_tag a) v) as [b1|] eqn:E1; cbn [obind] in He; [|discriminate].
+        destruct (enc_elems T s (fa_tag a) vr) as [b2|] eqn:E2; cbn [obind] in He; [|discriminate]. injection He as <-.
+        destruct fuel as [|f]; [cbn in Hfuel; lia|]. cbn [vl_length] in Hfuel.
+        destruct (enc_value_starts _ _ _ _ _ E1) as [b1' [Hb1 Hb1len]].
+        assert (Hit: at_item (fa_tag a) b1 (b2 ++ rest_body) st).
+        { subst b1. rewrite <- !app_assoc in Hat. apply at_item_split. exact Hat. }
+        assert (Hdv: dec_value s a st cur = Ok (normalize T s v, blen b1, {| rest := b2 ++ rest_body; last := 0 |})).
+        { apply (IHv s VNil a (b2 ++ rest_body) st cur b1 Hs Hwe E1 Htag Hit). destruct s; try exact I. contradiction. }
+        cbn [slice_loop]. rewrite Hdv. cbn [wrapped bind].
+        rewrite !blen_app in Hsum.
+        rewrite (mod_small_sum actual (blen b1) explen) by lia.
+        cbn [normalize_elems].
+        destruct (enc_elems_starts _ _ _ _ _ E2) as [[-> ->]|[Hne [b2' Hb2]]].
+        * (* last element *)
+          cbn [app blen length N.of_nat] in *. cbn [normalize_elems]. rewrite vl_app_snoc_nil.
+          destruct Hrb as [->|[t [r [-> [Hnt [Htz Htlt]]]]]].
+          -- cbn [blen length N.of_nat] in Hsum.
+             destruct (N.leb_spec explen (actual + blen b1)); [|unfold blen in *; cbn in *; lia].
+             eexists; split; [rewrite blen_app; cbn [blen length N.of_nat]; rewrite N.add_0_r; reflexivity|left; reflexivity].
+          -- assert (0 < blen (be 3 t ++ r)) by (rewrite blen_app, blen_be; lia).
+             destruct (N.leb_spec explen (actual + blen b1)); [unfold blen in *; cbn in *; lia|].
+             destruct (peek_stream_cons t r {| rest := be 3 t ++ r; last := 0 |} Htz Htlt (or_introl eq_refl)) as [st2 [Hp [_ Hst2]]].
+             rewrite Hp. cbn [bind]. destruct (N.eqb_spec t (fa_tag a)); [contradiction|].
+             eexists; split; [rewrite blen_app; cbn [blen length N.of_nat]; rewrite N.add_0_r; reflexivity|exact Hst2].
+        * (* more elements follow: the next tag is this field's tag again *)
+          subst b2.
+          assert (0 < blen (be 3 (fa_tag a) ++ b2')) by (rewrite blen_app, blen_be; lia).
+          destruct (N.leb_spec explen (actual + blen b1)); [rewrite !blen_app in *; lia|].
+          destruct Htag as [Htz [Htlt Htany]].
+          destruct (peek_stream_cons (fa_tag a) (b2' ++ rest_body) {| rest := (be 3 (fa_tag a) ++ b2') ++ rest_body; last := 0 |} Htz Htlt)
+            as [st2 [Hp [Hit2 _]]]; [left; rewrite <- app_assoc; reflexivity|].
+          rewrite Hp. cbn [bind]. rewrite N.eqb_refl.
+          assert (Hit3: at_item (fa_tag a) ((be 3 (fa_tag a) ++ b2') ++ rest_body) [] st2)
+            by (rewrite <- app_assoc; exact Hit2).
+          assert (Hsum3: actual + blen b1 + blen (be 3 (fa_tag a) ++ b2') + blen rest_body = explen) by lia.
+          assert (Hf3: (vl_length vr <= f)%nat) by lia.
+          destruct (IHe s a rest_body (be 3 (fa_tag a) ++ b2') st2 explen (actual + blen b1) (nsum + blen b1)
+                        (vl_snoc acc (normalize T s v)) cur f Hne Hs Hnd Hwr E2 (conj Htz (conj Htlt Htany)) Hit3 Hrb Hsum3 Hlt Hf3)
+            as [st' [Hloop Hst']].
+          exists st'. split; [|exact Hst'].
+          rewrite Hloop. rewrite vl_app_snoc. rewrite (blen_app b1). rewrite !N.add_assoc. reflexivity.
+  Qed.
 End RT.
+
+(* ------------------------------------------------------------------ *)
+(* message level                                                       *)
+(* ------------------------------------------------------------------ *)
+Section Top.
+  Variable T : tyenv.
+  Hypothesis Henv : env_ok T.
+
+  (* Decode(Encode v) on a stream: the normalised value, exactly the message consumed, no look-ahead left,
+     whatever bytes follow *)
+  Theorem roundtrip_top ty tag fl vs b tl :
+    T ty = Some (tag, fl) -> tag_ok tag -> wf T (SStruct ty fl) VNil (VStruct ty vs) ->
+    enc_top T (VStruct ty vs) = Some b ->
+    dec_top ty tag fl {| rest := b ++ tl; last := 0 |}
+    = Ok (VStruct ty (normalize_fields T fl vs), blen b, {| rest := tl; last := 0 |}).
+  Proof.
+    intros HT Htag Hwf He. unfold dec_top.
+    unfold enc_top in He. rewrite HT in He. cbn [obind snd fst] in He.
+    destruct (enc_fields T fl vs) as [body|] eqn:Eb; cbn [obind] in He; [|discriminate]. injection He as <-.
+    pose proof (proj1 (proj1 (rt_mut T Henv) (VStruct ty vs))) as Hv.
+    specialize (Hv (SStruct ty fl) VNil (top_attr tag) tl {| rest := wrap tag body ++ tl; last := 0 |} VNone (wrap tag body)).
+    cbn [normalize] in Hv. apply Hv; auto.
+    - cbn [sch_ok]. eapply Henv; eauto.
+    - cbn [enc_value]. rewrite Eb. reflexivity.
+    - left. reflexivity.
+  Qed.
+
+  (* a pointer to the message is encoded like the message *)
+  Lemma enc_top_ptr ty vs : enc_top T (VPtr (VStruct ty vs)) = enc_top T (VStruct ty vs).
+  Proof. reflexivity. Qed.
+
+  (* several messages back to back on one decoder: returned one by one, in order, normalised; then io.EOF *)
+  Theorem stream_roundtrip ty tag fl : T ty = Some (tag, fl) -> tag_ok tag ->
+    forall ms bs fuel,
+      Forall2 (fun vs b => wf T (SStruct ty fl) VNil (VStruct ty vs) /\ enc_top T (VStruct ty vs) = Some b) ms bs ->
+      (length ms < fuel)%nat ->
+      dec_stream fuel ty tag fl {| rest := concat bs; last := 0 |}
+      = (map (fun vs => VStruct ty (normalize_fields T fl vs)) ms, SEOF).
+  Proof.
+    intros HT Htag ms bs fuel H. revert fuel. induction H as [|vs b ms bs [Hwf He] _ IH]; intros fuel Hf.
+    - destruct fuel; [lia|]. cbn [dec_stream concat map]. unfold dec_top. cbn [dec_value].
+      destruct Htag as [Hz _]. unfold expect_tag, read_tag. cbn [last rest N.eqb negb]. reflexivity.
+    - destruct fuel; [cbn in Hf; lia|]. cbn [dec_stream concat map].
+      rewrite (roundtrip_top ty tag fl vs b (concat bs) HT Htag Hwf He).
+      rewrite IH by (cbn in Hf; lia). reflexivity.
+  Qed.
+End Top.
